@@ -13,15 +13,26 @@ import (
 	"encoding/hex"
 	"encoding/json"
 	"fmt"
+	"go/ast"
+	"go/parser"
+	"go/token"
+	"os"
+	"path/filepath"
+	"regexp"
 	"runtime"
+	"sort"
+	"strconv"
 	"strings"
 	"testing"
+	"time"
 
 	"github.com/gagliardetto/solana-go"
 	"github.com/klauspost/compress/zstd"
 	"github.com/mr-tron/base58"
+	hugecache "github.com/rpcpool/yellowstone-faithful/huge-cache"
 	old_faithful_grpc "github.com/rpcpool/yellowstone-faithful/old-faithful-proto/old-faithful-grpc"
 	"github.com/rpcpool/yellowstone-faithful/zzverif/vh"
+	"github.com/valyala/fasthttp"
 	"google.golang.org/grpc/codes"
 	"google.golang.org/grpc/status"
 )
@@ -101,11 +112,357 @@ func vc02IdxOK(noIdx bool, got *uint64, want int) bool {
 	return got != nil && int(*got) == want
 }
 
+// vc02Run carries what every part of the run needs.
+type vc02Run struct {
+	rep   *vh.Report
+	cases *vh.CasesFile
+	ctx   context.Context
+	seed  uint64
+	// observe: failures are counted and noted instead of reported (a check that is switched to "observe")
+	observe     bool
+	observed    int
+	observeNote string
+}
+
+func (r *vc02Run) fail(sig, detail string, replay interface{}) {
+	if r.observe {
+		r.observed++
+		r.rep.Count("observed (not enforced) " + r.observeNote + ": " + sig)
+		if r.observed <= 3 {
+			r.rep.Note("observed, not enforced (%s): %s: %.400s", r.observeNote, sig, detail)
+		}
+		return
+	}
+	r.rep.Fail(sig, detail, replay)
+}
+
+// vc02Opt describes one sweep over the epochs that are loaded in a server.
+type vc02Opt struct {
+	tag    string                 // distinguishes the cases of this sweep (loaded set, concurrency, phase)
+	si     int                    // rotates the encodings and the half of the transactions that the quick tier asks for
+	conc   int                    // epoch search concurrency of the server
+	loaded interface{}            // replay: what is loaded
+	extra  map[string]interface{} // replay: more members (the epoch-set changes made so far, the phase ...)
+	allEnc bool                   // every encoding for every block
+	allTx  bool                   // every transaction
+	noCoq  bool                   // no Coq cases (a repeated sweep over content that already produced its cases)
+}
+
+func (o vc02Opt) replay(tr *vfxTruth, more map[string]interface{}) map[string]interface{} {
+	m := map[string]interface{}{"epochs_loaded": o.loaded, "concurrency": o.conc, "sweep": o.tag}
+	if tr != nil {
+		m["spec"] = tr.Spec
+	}
+	for k, v := range o.extra {
+		m[k] = v
+	}
+	for k, v := range more {
+		m[k] = v
+	}
+	return m
+}
+
+var vc02Encodings = []string{"base64", "base58", "base64+zstd", "json"}
+
+// sweep requests every block (getBlock in the chosen encodings, gRPC GetBlock, getBlockTime both ways) and the
+// transactions (getTransaction JSON-RPC and gRPC) of the given epochs from the server and compares every reply
+// with the generator's truth.
+func (r *vc02Run) sweep(multi *MultiEpoch, h func(*fasthttp.RequestCtx), use []*vfxTruth, o vc02Opt) {
+	rep, cases, ctx := r.rep, r.cases, r.ctx
+	encodings := vc02Encodings
+	tag, si := o.tag, o.si
+	for _, tr := range use {
+		for bi := range tr.Blocks {
+			b := &tr.Blocks[bi]
+			replay := o.replay(tr, map[string]interface{}{"slot": b.Slot})
+			wantHash := ""
+			if n := len(b.Entries); n > 0 {
+				hb, _ := hex.DecodeString(b.Entries[n-1].Hash)
+				wantHash = solana.HashFromBytes(hb).String()
+			}
+			// expected previous blockhash
+			var wantPrev *string
+			parentArchived := false
+			if (b.Parent != 0 || b.Slot == 1) && b.Parent/vfxEpochLen == tr.Spec.Epoch {
+				if pb := tr.blockBySlot(b.Parent); pb != nil {
+					parentArchived = true
+					if n := len(pb.Entries); n > 0 {
+						hb, _ := hex.DecodeString(pb.Entries[n-1].Hash)
+						s := solana.HashFromBytes(hb).String()
+						wantPrev = &s
+					}
+				}
+			}
+			enc := encodings[(bi+si)%len(encodings)]
+			if o.allEnc || vh.Thorough() || bi%5 == 0 {
+				enc = "" // all encodings
+			}
+			for _, e := range encodings {
+				if enc != "" && e != enc {
+					continue
+				}
+				rep.Case(fmt.Sprintf("%s/getBlock/%s/%d", tag, e, b.Slot), true)
+				rep.Count("getBlock:" + e)
+				body, _, panicked, pmsg := vfxRPC(h, fmt.Sprintf(`{"jsonrpc":"2.0","id":1,"method":"getBlock","params":[%d,{"encoding":"%s","maxSupportedTransactionVersion":0,"rewards":false}]}`, b.Slot, e))
+				if panicked {
+					r.fail("handler-panic", pmsg, replay)
+					continue
+				}
+				rr, perr := vfxParseReply(body)
+				if perr != nil || rr.Error != nil || len(rr.Result) < 5 {
+					r.fail("archived-block-not-served", fmt.Sprintf("%s getBlock(%d,%s): %.300s", tag, b.Slot, e, body), replay)
+					continue
+				}
+				var got vc02Block
+				if err := json.Unmarshal(rr.Result, &got); err != nil {
+					r.fail("block-reply-unparsable", err.Error(), replay)
+					continue
+				}
+				var diffs []string
+				if b.Slot != 0 {
+					if got.ParentSlot != b.Parent {
+						diffs = append(diffs, fmt.Sprintf("parentSlot %d want %d", got.ParentSlot, b.Parent))
+					}
+					if b.Blocktime == 0 {
+						// a recorded block time of 0 is reported as null (or 0), never as another value
+						if got.BlockTime != nil && *got.BlockTime != 0 {
+							diffs = append(diffs, fmt.Sprintf("blockTime %d want 0/null", *got.BlockTime))
+						}
+					} else if got.BlockTime == nil || int64(*got.BlockTime) != b.Blocktime {
+						diffs = append(diffs, fmt.Sprintf("blockTime %s want %d", vc02U(got.BlockTime), b.Blocktime))
+					}
+					if b.HasHeight && (got.BlockHeight == nil || *got.BlockHeight != b.Height) {
+						diffs = append(diffs, fmt.Sprintf("blockHeight %s want %d", vc02U(got.BlockHeight), b.Height))
+					}
+					if (wantPrev == nil) != (got.PreviousBlockhash == nil) || (wantPrev != nil && *wantPrev != *got.PreviousBlockhash) {
+						diffs = append(diffs, fmt.Sprintf("previousBlockhash %v want %v", vc02S(got.PreviousBlockhash), vc02S(wantPrev)))
+					}
+				}
+				if got.Blockhash != wantHash {
+					diffs = append(diffs, fmt.Sprintf("blockhash %s want %s", got.Blockhash, wantHash))
+				}
+				byPos := b.sortedTxs()
+				if len(got.Transactions) != len(b.Txs) {
+					diffs = append(diffs, fmt.Sprintf("%d transactions want %d", len(got.Transactions), len(b.Txs)))
+				} else {
+					for i := range byPos {
+						want := &byPos[i]
+						if e != "json" {
+							raw, derr := vc02DecodeTx(got.Transactions[i].Transaction, e)
+							wantRaw, _ := base64.StdEncoding.DecodeString(want.TxB64)
+							if derr != nil || !bytes.Equal(raw, wantRaw) {
+								diffs = append(diffs, fmt.Sprintf("transaction #%d payload differs (%v)", i, derr))
+							}
+						} else {
+							var jt struct {
+								Signatures []string `json:"signatures"`
+							}
+							_ = json.Unmarshal(got.Transactions[i].Transaction, &jt)
+							if len(jt.Signatures) < 1 || jt.Signatures[0] != want.Sig {
+								diffs = append(diffs, fmt.Sprintf("transaction #%d signature %v want %s", i, jt.Signatures, want.Sig))
+							}
+						}
+						if m := vc02MetaMatches(got.Transactions[i].Meta, want); m != "" {
+							diffs = append(diffs, fmt.Sprintf("transaction #%d metadata: %s", i, m))
+						}
+					}
+				}
+				if len(diffs) > 0 {
+					r.fail("block-reply-differs-from-archive", fmt.Sprintf("%s getBlock(%d,%s): %s", tag, b.Slot, e, vc02Join(diffs)), replay)
+				}
+				// Coq cases (once per block and set): transaction order and previous-blockhash decision
+				if e == "base64" && len(got.Transactions) == len(b.Txs) && !o.noCoq {
+					ids := map[string]int{}
+					for _, tx := range b.Txs {
+						ids[tx.TxB64] = 1 + len(ids)
+					}
+					var entries []string
+					k := 0
+					for _, en := range b.Entries {
+						var txs []string
+						for j := 0; j < en.NumTx; j++ {
+							txs = append(txs, fmt.Sprintf("(%d%%nat, %d%%N)", b.Txs[k].Pos, ids[b.Txs[k].TxB64]))
+							k++
+						}
+						entries = append(entries, vh.CoqList(txs))
+					}
+					var obs []string
+					okAll := true
+					for i := range got.Transactions {
+						raw, _ := vc02DecodeTx(got.Transactions[i].Transaction, e)
+						id, ok := ids[base64.StdEncoding.EncodeToString(raw)]
+						if !ok {
+							okAll = false
+							break
+						}
+						// position is not exposed by JSON-RPC; the model's position of that payload is used
+						pos := -1
+						for _, tx := range b.Txs {
+							if ids[tx.TxB64] == id {
+								pos = tx.Pos
+							}
+						}
+						obs = append(obs, fmt.Sprintf("(%d%%nat, %d%%N)", pos, id))
+					}
+					if okAll {
+						cases.Add(fmt.Sprintf("CBlockTxs %s %s", vh.CoqList(entries), vh.CoqList(obs)))
+					}
+					if b.Slot != 0 {
+						cases.Add(fmt.Sprintf("CPrev %d%%N %d%%N %d%%N %s %s", b.Slot, b.Parent, tr.Spec.Epoch, vh.CoqBool(parentArchived), vh.CoqBool(got.PreviousBlockhash != nil)))
+					}
+				}
+			}
+			// ---- gRPC GetBlock
+			rep.Case(fmt.Sprintf("%s/grpcGetBlock/%d", tag, b.Slot), true)
+			gb, gerr := multi.GetBlock(ctx, &old_faithful_grpc.BlockRequest{Slot: b.Slot})
+			if gerr != nil {
+				r.fail("archived-block-not-served:grpc", fmt.Sprintf("%s slot %d: %v", tag, b.Slot, gerr), replay)
+			} else {
+				var diffs []string
+				if gb.Slot != b.Slot {
+					diffs = append(diffs, fmt.Sprintf("slot %d", gb.Slot))
+				}
+				if b.Slot != 0 && (gb.ParentSlot != b.Parent || gb.BlockTime != b.Blocktime) {
+					diffs = append(diffs, fmt.Sprintf("parent %d time %d", gb.ParentSlot, gb.BlockTime))
+				}
+				if solana.HashFromBytes(gb.Blockhash).String() != wantHash {
+					diffs = append(diffs, "blockhash")
+				}
+				if b.Slot != 0 && ((wantPrev == nil) != (len(gb.PreviousBlockhash) == 0) || (wantPrev != nil && solana.HashFromBytes(gb.PreviousBlockhash).String() != *wantPrev)) {
+					diffs = append(diffs, "previous blockhash")
+				}
+				if len(gb.Transactions) != len(b.Txs) {
+					diffs = append(diffs, fmt.Sprintf("%d transactions want %d", len(gb.Transactions), len(b.Txs)))
+				} else {
+					byPos := b.sortedTxs()
+					for i := range byPos {
+						wantRaw, _ := base64.StdEncoding.DecodeString(byPos[i].TxB64)
+						wantMeta, _ := base64.StdEncoding.DecodeString(byPos[i].MetaB64)
+						g := gb.Transactions[i]
+						if !bytes.Equal(g.Transaction, wantRaw) || !bytes.Equal(g.Meta, wantMeta) || !vc02IdxOK(tr.Spec.NoTxIndex, g.Index, byPos[i].Pos) {
+							diffs = append(diffs, fmt.Sprintf("transaction #%d (bytes/meta/index)", i))
+						}
+					}
+				}
+				if len(diffs) > 0 {
+					r.fail("block-reply-differs-from-archive:grpc", fmt.Sprintf("%s slot %d: %s", tag, b.Slot, vc02Join(diffs)), replay)
+				}
+			}
+			// ---- getBlockTime
+			body, _, panicked, pmsg := vfxRPC(h, fmt.Sprintf(`{"jsonrpc":"2.0","id":1,"method":"getBlockTime","params":[%d]}`, b.Slot))
+			if panicked {
+				r.fail("handler-panic", pmsg, replay)
+			} else if rr, err := vfxParseReply(body); err != nil || rr.Error != nil || (strings.TrimSpace(string(rr.Result)) != fmt.Sprint(b.Blocktime) && !(b.Blocktime == 0 && strings.TrimSpace(string(rr.Result)) == "null")) {
+				if b.Slot != 0 {
+					r.fail("blocktime-differs-from-archive", fmt.Sprintf("%s getBlockTime(%d): %.200s want %d", tag, b.Slot, body, b.Blocktime), replay)
+				}
+			}
+			if gt, err := multi.GetBlockTime(ctx, &old_faithful_grpc.BlockTimeRequest{Slot: b.Slot}); b.Slot != 0 && (err != nil || gt.BlockTime != b.Blocktime) {
+				r.fail("blocktime-differs-from-archive:grpc", fmt.Sprintf("%s slot %d: %v %v", tag, b.Slot, gt, err), replay)
+			}
+			// ---- transactions
+			for ti := range b.Txs {
+				if !o.allTx && !vh.Thorough() && (ti+bi+si)%2 == 1 {
+					continue
+				}
+				r.getTx(multi, h, tr, b, bi, ti, o, replay)
+			}
+		}
+	}
+}
+
+// getTx requests one archived transaction through JSON-RPC (one byte encoding) and gRPC and compares the replies.
+func (r *vc02Run) getTx(multi *MultiEpoch, h func(*fasthttp.RequestCtx), tr *vfxTruth, b *vfxBlock, bi, ti int, o vc02Opt, replay map[string]interface{}) {
+	rep, ctx, tag := r.rep, r.ctx, o.tag
+	want := &b.Txs[ti]
+	e := vc02Encodings[(ti+bi)%3] // byte encodings
+	rep.Case(fmt.Sprintf("%s/getTransaction/%s/%s", tag, e, want.Sig), true)
+	rep.Count("getTransaction:" + e)
+	if want.Frames > 1 || want.MetaFr > 1 {
+		rep.Count("getTransaction:multi-frame")
+	}
+	wantRaw, _ := base64.StdEncoding.DecodeString(want.TxB64)
+	body, _, panicked, pmsg := vfxRPC(h, fmt.Sprintf(`{"jsonrpc":"2.0","id":1,"method":"getTransaction","params":["%s",{"encoding":"%s","maxSupportedTransactionVersion":0}]}`, want.Sig, e))
+	if panicked {
+		r.fail("handler-panic", pmsg, replay)
+		return
+	}
+	rr, perr := vfxParseReply(body)
+	if perr != nil || rr.Error != nil || len(rr.Result) < 5 {
+		r.fail("archived-transaction-not-served", fmt.Sprintf("%s getTransaction(%s): %.300s", tag, want.Sig, body), replay)
+		return
+	}
+	var got vc02Tx
+	_ = json.Unmarshal(rr.Result, &got)
+	var diffs []string
+	raw, derr := vc02DecodeTx(got.Transaction, e)
+	if derr != nil || !bytes.Equal(raw, wantRaw) {
+		diffs = append(diffs, "payload differs")
+	}
+	if got.Slot == nil || *got.Slot != want.Slot {
+		diffs = append(diffs, fmt.Sprintf("slot %s want %d", vc02U(got.Slot), want.Slot))
+	}
+	if got.BlockTime == nil || *got.BlockTime != b.Blocktime {
+		bt := "<nil>"
+		if got.BlockTime != nil {
+			bt = fmt.Sprint(*got.BlockTime)
+		}
+		diffs = append(diffs, fmt.Sprintf("blockTime %s want %d", bt, b.Blocktime))
+	}
+	if m := vc02MetaMatches(got.Meta, want); m != "" {
+		diffs = append(diffs, "metadata: "+m)
+	}
+	if len(diffs) > 0 {
+		r.fail("transaction-reply-differs-from-archive", fmt.Sprintf("%s getTransaction(%s,%s): %s", tag, want.Sig, e, vc02Join(diffs)), replay)
+	}
+	sig := solana.MustSignatureFromBase58(want.Sig)
+	gtx, gerr := multi.GetTransaction(ctx, &old_faithful_grpc.TransactionRequest{Signature: sig[:]})
+	wantMeta, _ := base64.StdEncoding.DecodeString(want.MetaB64)
+	if gerr != nil || gtx.Transaction == nil {
+		r.fail("archived-transaction-not-served:grpc", fmt.Sprintf("%s %s: %v", tag, want.Sig, gerr), replay)
+	} else if !bytes.Equal(gtx.Transaction.Transaction, wantRaw) || !bytes.Equal(gtx.Transaction.Meta, wantMeta) || gtx.Slot != want.Slot || gtx.BlockTime != b.Blocktime || !vc02IdxOK(tr.Spec.NoTxIndex, gtx.Index, want.Pos) {
+		r.fail("transaction-reply-differs-from-archive:grpc", fmt.Sprintf("%s %s: slot %d time %d index %v", tag, want.Sig, gtx.Slot, gtx.BlockTime, gtx.Index), replay)
+	}
+}
+
+// absent: signatures that no loaded epoch archives are answered not-found (never an internal error, never a
+// transaction), whatever the number of loaded epochs and the search concurrency (all-not-found -> not found, C18 mapping).
+// kind names the sort of signature in the case key and the counters ("absent": random; "gone": archived by an
+// epoch that was loaded earlier and has been removed or replaced since).
+func (r *vc02Run) absent(multi *MultiEpoch, h func(*fasthttp.RequestCtx), o vc02Opt, kind string, sigs []solana.Signature) {
+	rep, ctx, tag := r.rep, r.ctx, o.tag
+	for k, sig := range sigs {
+		rp := o.replay(nil, map[string]interface{}{"sig": sig.String(), "signature_kind": kind})
+		rep.Case(fmt.Sprintf("%s/getTransaction/%s/%d", tag, kind, k), true)
+		rep.Count("getTransaction:" + kind)
+		body, _, panicked, pmsg := vfxRPC(h, fmt.Sprintf(`{"jsonrpc":"2.0","id":1,"method":"getTransaction","params":["%s",{"encoding":"base64"}]}`, sig))
+		if panicked {
+			r.fail("handler-panic", pmsg, rp)
+			continue
+		}
+		rr, perr := vfxParseReply(body)
+		switch {
+		case perr != nil:
+			r.fail("unarchived-signature-bad-reply", body, rp)
+		case rr.Error != nil && rr.Error.Code == -32603:
+			r.fail("unarchived-signature-internal-error", fmt.Sprintf("%s getTransaction(%s): %.200s (all epochs answered not-found: the reply must be not-found)", tag, sig, body), rp)
+		case rr.Error == nil && len(rr.Result) > 4:
+			r.fail("unarchived-signature-answered", fmt.Sprintf("%s getTransaction(%s) [%s]: %.300s", tag, sig, kind, body), rp)
+		}
+		if gtx, gerr := multi.GetTransaction(ctx, &old_faithful_grpc.TransactionRequest{Signature: sig[:]}); gerr == nil && gtx != nil && gtx.Transaction != nil {
+			r.fail("unarchived-signature-answered:grpc", fmt.Sprintf("%s %s [%s]", tag, sig, kind), rp)
+		} else if gerr != nil && status.Code(gerr) != codes.NotFound {
+			r.fail("unarchived-signature-internal-error:grpc", fmt.Sprintf("%s %s [%s]: %v", tag, sig, kind, gerr), rp)
+		}
+	}
+}
+
 func TestVerif_C02(t *testing.T) {
 	rep := vh.NewReport("C02", "rpc",
-		"every archived block / transaction of the generated epochs x {JSON-RPC base58, base64, base64+zstd, json; gRPC} x epoch sets {one, two, all incl. epoch 0 with genesis} x search concurrency {1, NumCPU}; a case = one request compared field by field with the generator's truth; distinct by (epoch set, api, encoding, key)")
+		"every archived block / transaction of the generated epochs x {JSON-RPC base58, base64, base64+zstd, json; gRPC} x epoch sets {one, two, all incl. epoch 0 with genesis} x search concurrency {1, NumCPU}; one epoch with a block that lies further from its parent than the handlers' read-ahead reaches (cold and warm cache); servers whose epoch set changes while they run (epochs replaced by a grown / shrunk build, removed, added again): after every change the answers for ALL loaded epochs are those of the current set; a case = one request compared field by field with the generator's truth; distinct by (epoch set / phase, api, encoding, key)")
 	cases := vh.NewCases("cases_c02", []string{"YF.C02_Rpc"}, "case", "check")
 	seed := vh.Seed()
+	run := &vc02Run{rep: rep, cases: cases, ctx: context.Background(), seed: seed}
 	e0 := vfxDefaultSpec("c02e0", 0, seed)
 	e0.NumSlots, e0.SkipPercent = 14, 20
 	e1 := vfxDefaultSpec("c02e1", 1, seed+1)
@@ -127,22 +484,68 @@ func TestVerif_C02(t *testing.T) {
 			specs[i].NumSlots *= 3
 		}
 	}
-	truths, err := vfxBuild(specs)
-	if err != nil {
-		t.Fatalf("setup failed: %v", err)
-	}
-	for _, tr := range truths {
-		if tr.BuildErr != "" {
-			t.Fatalf("setup failed: fixture %s: %s", tr.Spec.Name, tr.BuildErr)
+	nCore := len(specs)
+	// ---- additional epochs (they must not stop the run when they cannot be built or loaded on a changed tree)
+	// (a) epoch 1 built again after it has grown: a strict extension of e1 (same objects, more blocks)
+	e1x := specs[1]
+	e1x.Name, e1x.Dir, e1x.ExtraSlots = "c02e1x", vfxDefaultSpec("c02e1x", 1, 0).Dir, 3
+	iE1x := len(specs)
+	specs = append(specs, e1x)
+	// (b) epoch 2 built from other content (other blocks at the same slots)
+	e2v := specs[2]
+	e2v.Name, e2v.Dir, e2v.Variant = "c02e2v", vfxDefaultSpec("c02e2v", 2, 0).Dir, 1
+	iE2v := len(specs)
+	specs = append(specs, e2v)
+	// (c) an epoch with a block whose objects take more of the CAR file than the getBlock read-ahead covers
+	capBytes, capWhere := vc02ReadAheadCap()
+	rep.Flag("read_ahead_cap", map[string]interface{}{"bytes": capBytes, "found": capWhere})
+	const maxAffordable = 48 << 20
+	iBig, iBig0 := -1, -1
+	if capBytes <= maxAffordable {
+		big := vfxDefaultSpec("c02big", 3, seed+5)
+		big.NumSlots, big.SkipPercent, big.FrameSize, big.FanOut = 5, 0, 256<<10, 4
+		big.HugeSpan, big.HugeMask = capBytes+capBytes/8+4096, 1<<2 // the third block: its parent is a block of the same epoch
+		iBig = len(specs)
+		specs = append(specs, big)
+		if vh.Thorough() {
+			// the FIRST block of the epoch: its parent belongs to the previous epoch, the read-ahead starts after the CAR header
+			big0 := vfxDefaultSpec("c02big0", 4, seed+6)
+			big0.NumSlots, big0.SkipPercent, big0.FrameSize, big0.FanOut = 4, 0, 0, 4
+			big0.HugeSpan, big0.HugeMask = capBytes+capBytes/8+4096, 1<<0
+			iBig0 = len(specs)
+			specs = append(specs, big0)
 		}
+	} else {
+		rep.Note("the read-ahead of getBlock is capped at %d bytes: an epoch with a block beyond that is not affordable here and was not generated", capBytes)
+	}
+	truths, err := vfxBuild(specs)
+	for i := 0; i < nCore; i++ {
+		if i >= len(truths) || truths[i] == nil {
+			t.Fatalf("setup failed: %v", err)
+		}
+		if truths[i].BuildErr != "" {
+			t.Fatalf("setup failed: fixture %s: %s", truths[i].Spec.Name, truths[i].BuildErr)
+		}
+	}
+	usable := func(i int) bool {
+		if i < 0 || i >= len(truths) {
+			return false
+		}
+		if truths[i] == nil {
+			rep.Note("additional epoch %s could not be built on this tree (%.300v): the cases that need it are skipped", specs[i].Name, err)
+			return false
+		}
+		if truths[i].BuildErr != "" {
+			rep.Note("additional epoch %s could not be built on this tree (%.300s): the cases that need it are skipped", specs[i].Name, truths[i].BuildErr)
+			return false
+		}
+		return true
 	}
 	sets := [][]int{{1}, {1, 2}, {0, 1, 2}, {3}, {3, 1}}
 	if vh.Thorough() {
 		sets = append(sets, []int{0}, []int{2}, []int{0, 2}, []int{0, 1, 2, 4}, []int{4, 1})
 	}
 	concs := []int{1, runtime.NumCPU()}
-	ctx := context.Background()
-	encodings := []string{"base64", "base58", "base64+zstd", "json"}
 	for si, set := range sets {
 		conc := concs[si%len(concs)]
 		var use []*vfxTruth
@@ -155,279 +558,10 @@ func TestVerif_C02(t *testing.T) {
 		}
 		h := newMultiEpochHandler(multi, nil)
 		tag := fmt.Sprintf("set=%v conc=%d", set, conc)
-		for _, tr := range use {
-			for bi := range tr.Blocks {
-				b := &tr.Blocks[bi]
-				replay := map[string]interface{}{"spec": tr.Spec, "epochs_loaded": set, "concurrency": conc, "slot": b.Slot}
-				wantHash := ""
-				if n := len(b.Entries); n > 0 {
-					hb, _ := hex.DecodeString(b.Entries[n-1].Hash)
-					wantHash = solana.HashFromBytes(hb).String()
-				}
-				// expected previous blockhash
-				var wantPrev *string
-				parentArchived := false
-				if (b.Parent != 0 || b.Slot == 1) && b.Parent/vfxEpochLen == tr.Spec.Epoch {
-					if pb := tr.blockBySlot(b.Parent); pb != nil {
-						parentArchived = true
-						if n := len(pb.Entries); n > 0 {
-							hb, _ := hex.DecodeString(pb.Entries[n-1].Hash)
-							s := solana.HashFromBytes(hb).String()
-							wantPrev = &s
-						}
-					}
-				}
-				enc := encodings[(bi+si)%len(encodings)]
-				if vh.Thorough() || bi%5 == 0 {
-					enc = "" // all encodings
-				}
-				for _, e := range encodings {
-					if enc != "" && e != enc {
-						continue
-					}
-					rep.Case(fmt.Sprintf("%s/getBlock/%s/%d", tag, e, b.Slot), true)
-					rep.Count("getBlock:" + e)
-					body, _, panicked, pmsg := vfxRPC(h, fmt.Sprintf(`{"jsonrpc":"2.0","id":1,"method":"getBlock","params":[%d,{"encoding":"%s","maxSupportedTransactionVersion":0,"rewards":false}]}`, b.Slot, e))
-					if panicked {
-						rep.Fail("handler-panic", pmsg, replay)
-						continue
-					}
-					r, perr := vfxParseReply(body)
-					if perr != nil || r.Error != nil || len(r.Result) < 5 {
-						rep.Fail("archived-block-not-served", fmt.Sprintf("%s getBlock(%d,%s): %.300s", tag, b.Slot, e, body), replay)
-						continue
-					}
-					var got vc02Block
-					if err := json.Unmarshal(r.Result, &got); err != nil {
-						rep.Fail("block-reply-unparsable", err.Error(), replay)
-						continue
-					}
-					var diffs []string
-					if b.Slot != 0 {
-						if got.ParentSlot != b.Parent {
-							diffs = append(diffs, fmt.Sprintf("parentSlot %d want %d", got.ParentSlot, b.Parent))
-						}
-						if b.Blocktime == 0 {
-							// a recorded block time of 0 is reported as null (or 0), never as another value
-							if got.BlockTime != nil && *got.BlockTime != 0 {
-								diffs = append(diffs, fmt.Sprintf("blockTime %d want 0/null", *got.BlockTime))
-							}
-						} else if got.BlockTime == nil || int64(*got.BlockTime) != b.Blocktime {
-							diffs = append(diffs, fmt.Sprintf("blockTime %v want %d", got.BlockTime, b.Blocktime))
-						}
-						if b.HasHeight && (got.BlockHeight == nil || *got.BlockHeight != b.Height) {
-							diffs = append(diffs, fmt.Sprintf("blockHeight %v want %d", got.BlockHeight, b.Height))
-						}
-						if (wantPrev == nil) != (got.PreviousBlockhash == nil) || (wantPrev != nil && *wantPrev != *got.PreviousBlockhash) {
-							diffs = append(diffs, fmt.Sprintf("previousBlockhash %v want %v", vc02S(got.PreviousBlockhash), vc02S(wantPrev)))
-						}
-					}
-					if got.Blockhash != wantHash {
-						diffs = append(diffs, fmt.Sprintf("blockhash %s want %s", got.Blockhash, wantHash))
-					}
-					byPos := b.sortedTxs()
-					if len(got.Transactions) != len(b.Txs) {
-						diffs = append(diffs, fmt.Sprintf("%d transactions want %d", len(got.Transactions), len(b.Txs)))
-					} else {
-						for i := range byPos {
-							want := &byPos[i]
-							if e != "json" {
-								raw, derr := vc02DecodeTx(got.Transactions[i].Transaction, e)
-								wantRaw, _ := base64.StdEncoding.DecodeString(want.TxB64)
-								if derr != nil || !bytes.Equal(raw, wantRaw) {
-									diffs = append(diffs, fmt.Sprintf("transaction #%d payload differs (%v)", i, derr))
-								}
-							} else {
-								var jt struct {
-									Signatures []string `json:"signatures"`
-								}
-								_ = json.Unmarshal(got.Transactions[i].Transaction, &jt)
-								if len(jt.Signatures) < 1 || jt.Signatures[0] != want.Sig {
-									diffs = append(diffs, fmt.Sprintf("transaction #%d signature %v want %s", i, jt.Signatures, want.Sig))
-								}
-							}
-							if m := vc02MetaMatches(got.Transactions[i].Meta, want); m != "" {
-								diffs = append(diffs, fmt.Sprintf("transaction #%d metadata: %s", i, m))
-							}
-						}
-					}
-					if len(diffs) > 0 {
-						rep.Fail("block-reply-differs-from-archive", fmt.Sprintf("%s getBlock(%d,%s): %s", tag, b.Slot, e, strings.Join(diffs, "; ")), replay)
-					}
-					// Coq cases (once per block and set): transaction order and previous-blockhash decision
-					if e == "base64" && len(got.Transactions) == len(b.Txs) {
-						ids := map[string]int{}
-						for _, tx := range b.Txs {
-							ids[tx.TxB64] = 1 + len(ids)
-						}
-						var entries []string
-						k := 0
-						for _, en := range b.Entries {
-							var txs []string
-							for j := 0; j < en.NumTx; j++ {
-								txs = append(txs, fmt.Sprintf("(%d%%nat, %d%%N)", b.Txs[k].Pos, ids[b.Txs[k].TxB64]))
-								k++
-							}
-							entries = append(entries, vh.CoqList(txs))
-						}
-						var obs []string
-						okAll := true
-						for i := range got.Transactions {
-							raw, _ := vc02DecodeTx(got.Transactions[i].Transaction, e)
-							id, ok := ids[base64.StdEncoding.EncodeToString(raw)]
-							if !ok {
-								okAll = false
-								break
-							}
-							// position is not exposed by JSON-RPC; the model's position of that payload is used
-							pos := -1
-							for _, tx := range b.Txs {
-								if ids[tx.TxB64] == id {
-									pos = tx.Pos
-								}
-							}
-							obs = append(obs, fmt.Sprintf("(%d%%nat, %d%%N)", pos, id))
-						}
-						if okAll {
-							cases.Add(fmt.Sprintf("CBlockTxs %s %s", vh.CoqList(entries), vh.CoqList(obs)))
-						}
-						if b.Slot != 0 {
-							cases.Add(fmt.Sprintf("CPrev %d%%N %d%%N %d%%N %s %s", b.Slot, b.Parent, tr.Spec.Epoch, vh.CoqBool(parentArchived), vh.CoqBool(got.PreviousBlockhash != nil)))
-						}
-					}
-				}
-				// ---- gRPC GetBlock
-				rep.Case(fmt.Sprintf("%s/grpcGetBlock/%d", tag, b.Slot), true)
-				gb, gerr := multi.GetBlock(ctx, &old_faithful_grpc.BlockRequest{Slot: b.Slot})
-				if gerr != nil {
-					rep.Fail("archived-block-not-served:grpc", fmt.Sprintf("%s slot %d: %v", tag, b.Slot, gerr), replay)
-				} else {
-					var diffs []string
-					if gb.Slot != b.Slot {
-						diffs = append(diffs, fmt.Sprintf("slot %d", gb.Slot))
-					}
-					if b.Slot != 0 && (gb.ParentSlot != b.Parent || gb.BlockTime != b.Blocktime) {
-						diffs = append(diffs, fmt.Sprintf("parent %d time %d", gb.ParentSlot, gb.BlockTime))
-					}
-					if solana.HashFromBytes(gb.Blockhash).String() != wantHash {
-						diffs = append(diffs, "blockhash")
-					}
-					if b.Slot != 0 && ((wantPrev == nil) != (len(gb.PreviousBlockhash) == 0) || (wantPrev != nil && solana.HashFromBytes(gb.PreviousBlockhash).String() != *wantPrev)) {
-						diffs = append(diffs, "previous blockhash")
-					}
-					if len(gb.Transactions) != len(b.Txs) {
-						diffs = append(diffs, fmt.Sprintf("%d transactions want %d", len(gb.Transactions), len(b.Txs)))
-					} else {
-						byPos := b.sortedTxs()
-						for i := range byPos {
-							wantRaw, _ := base64.StdEncoding.DecodeString(byPos[i].TxB64)
-							wantMeta, _ := base64.StdEncoding.DecodeString(byPos[i].MetaB64)
-							g := gb.Transactions[i]
-							if !bytes.Equal(g.Transaction, wantRaw) || !bytes.Equal(g.Meta, wantMeta) || !vc02IdxOK(tr.Spec.NoTxIndex, g.Index, byPos[i].Pos) {
-								diffs = append(diffs, fmt.Sprintf("transaction #%d (bytes/meta/index)", i))
-							}
-						}
-					}
-					if len(diffs) > 0 {
-						rep.Fail("block-reply-differs-from-archive:grpc", fmt.Sprintf("%s slot %d: %s", tag, b.Slot, strings.Join(diffs, "; ")), replay)
-					}
-				}
-				// ---- getBlockTime
-				body, _, panicked, pmsg := vfxRPC(h, fmt.Sprintf(`{"jsonrpc":"2.0","id":1,"method":"getBlockTime","params":[%d]}`, b.Slot))
-				if panicked {
-					rep.Fail("handler-panic", pmsg, replay)
-				} else if r, err := vfxParseReply(body); err != nil || r.Error != nil || (strings.TrimSpace(string(r.Result)) != fmt.Sprint(b.Blocktime) && !(b.Blocktime == 0 && strings.TrimSpace(string(r.Result)) == "null")) {
-					if b.Slot != 0 {
-						rep.Fail("blocktime-differs-from-archive", fmt.Sprintf("%s getBlockTime(%d): %.200s want %d", tag, b.Slot, body, b.Blocktime), replay)
-					}
-				}
-				if gt, err := multi.GetBlockTime(ctx, &old_faithful_grpc.BlockTimeRequest{Slot: b.Slot}); b.Slot != 0 && (err != nil || gt.BlockTime != b.Blocktime) {
-					rep.Fail("blocktime-differs-from-archive:grpc", fmt.Sprintf("%s slot %d: %v %v", tag, b.Slot, gt, err), replay)
-				}
-				// ---- transactions
-				for ti := range b.Txs {
-					want := &b.Txs[ti]
-					if !vh.Thorough() && (ti+bi+si)%2 == 1 {
-						continue
-					}
-					e := encodings[(ti+bi)%3] // byte encodings
-					rep.Case(fmt.Sprintf("%s/getTransaction/%s/%s", tag, e, want.Sig), true)
-					rep.Count("getTransaction:" + e)
-					if want.Frames > 1 || want.MetaFr > 1 {
-						rep.Count("getTransaction:multi-frame")
-					}
-					body, _, panicked, pmsg := vfxRPC(h, fmt.Sprintf(`{"jsonrpc":"2.0","id":1,"method":"getTransaction","params":["%s",{"encoding":"%s","maxSupportedTransactionVersion":0}]}`, want.Sig, e))
-					if panicked {
-						rep.Fail("handler-panic", pmsg, replay)
-						continue
-					}
-					r, perr := vfxParseReply(body)
-					if perr != nil || r.Error != nil || len(r.Result) < 5 {
-						rep.Fail("archived-transaction-not-served", fmt.Sprintf("%s getTransaction(%s): %.300s", tag, want.Sig, body), replay)
-						continue
-					}
-					var got vc02Tx
-					_ = json.Unmarshal(r.Result, &got)
-					var diffs []string
-					raw, derr := vc02DecodeTx(got.Transaction, e)
-					wantRaw, _ := base64.StdEncoding.DecodeString(want.TxB64)
-					if derr != nil || !bytes.Equal(raw, wantRaw) {
-						diffs = append(diffs, "payload differs")
-					}
-					if got.Slot == nil || *got.Slot != want.Slot {
-						diffs = append(diffs, fmt.Sprintf("slot %v want %d", got.Slot, want.Slot))
-					}
-					if got.BlockTime == nil || *got.BlockTime != b.Blocktime {
-						diffs = append(diffs, fmt.Sprintf("blockTime %v want %d", got.BlockTime, b.Blocktime))
-					}
-					if m := vc02MetaMatches(got.Meta, want); m != "" {
-						diffs = append(diffs, "metadata: "+m)
-					}
-					if len(diffs) > 0 {
-						rep.Fail("transaction-reply-differs-from-archive", fmt.Sprintf("%s getTransaction(%s,%s): %s", tag, want.Sig, e, strings.Join(diffs, "; ")), replay)
-					}
-					sig := solana.MustSignatureFromBase58(want.Sig)
-					gtx, gerr := multi.GetTransaction(ctx, &old_faithful_grpc.TransactionRequest{Signature: sig[:]})
-					wantMeta, _ := base64.StdEncoding.DecodeString(want.MetaB64)
-					if gerr != nil || gtx.Transaction == nil {
-						rep.Fail("archived-transaction-not-served:grpc", fmt.Sprintf("%s %s: %v", tag, want.Sig, gerr), replay)
-					} else if !bytes.Equal(gtx.Transaction.Transaction, wantRaw) || !bytes.Equal(gtx.Transaction.Meta, wantMeta) || gtx.Slot != want.Slot || gtx.BlockTime != b.Blocktime || !vc02IdxOK(tr.Spec.NoTxIndex, gtx.Index, want.Pos) {
-						rep.Fail("transaction-reply-differs-from-archive:grpc", fmt.Sprintf("%s %s: slot %d time %d index %v", tag, want.Sig, gtx.Slot, gtx.BlockTime, gtx.Index), replay)
-					}
-				}
-			}
-		}
-		// ---- unarchived signatures: answered not-found (never an internal error, never a transaction), whatever
-		// the number of loaded epochs and the search concurrency (all-not-found -> not found, C18 mapping)
-		{
-			rngA := vh.NewRng(seed + uint64(si)*7 + 3)
-			for k := 0; k < 6; k++ {
-				var sig solana.Signature
-				copy(sig[:], rngA.Bytes(64))
-				rep.Case(fmt.Sprintf("%s/getTransaction/absent/%d", tag, k), true)
-				rep.Count("getTransaction:absent")
-				body, _, panicked, pmsg := vfxRPC(h, fmt.Sprintf(`{"jsonrpc":"2.0","id":1,"method":"getTransaction","params":["%s",{"encoding":"base64"}]}`, sig))
-				if panicked {
-					rep.Fail("handler-panic", pmsg, map[string]interface{}{"sig": sig.String()})
-					continue
-				}
-				r, perr := vfxParseReply(body)
-				switch {
-				case perr != nil:
-					rep.Fail("unarchived-signature-bad-reply", body, map[string]interface{}{"sig": sig.String(), "epochs_loaded": set})
-				case r.Error != nil && r.Error.Code == -32603:
-					rep.Fail("unarchived-signature-internal-error", fmt.Sprintf("%s getTransaction(%s): %.200s (all epochs answered not-found: the reply must be not-found)", tag, sig, body),
-						map[string]interface{}{"sig": sig.String(), "epochs_loaded": set, "concurrency": conc})
-				case r.Error == nil && len(r.Result) > 4:
-					rep.Fail("unarchived-signature-answered", body, map[string]interface{}{"sig": sig.String(), "epochs_loaded": set})
-				}
-				if gtx, gerr := multi.GetTransaction(ctx, &old_faithful_grpc.TransactionRequest{Signature: sig[:]}); gerr == nil && gtx != nil && gtx.Transaction != nil {
-					rep.Fail("unarchived-signature-answered:grpc", sig.String(), map[string]interface{}{"sig": sig.String(), "epochs_loaded": set})
-				} else if gerr != nil && status.Code(gerr) != codes.NotFound {
-					rep.Fail("unarchived-signature-internal-error:grpc", fmt.Sprintf("%s %s: %v", tag, sig, gerr), map[string]interface{}{"sig": sig.String(), "epochs_loaded": set})
-				}
-			}
-		}
+		o := vc02Opt{tag: tag, si: si, conc: conc, loaded: set}
+		run.sweep(multi, h, use, o)
+		// ---- unarchived signatures
+		run.absent(multi, h, o, "absent", vc02RandomSigs(seed+uint64(si)*7+3, 6))
 		if len(rep.Samples) < 3 {
 			tr := use[0]
 			if len(tr.Blocks) > 2 {
@@ -438,6 +572,31 @@ func TestVerif_C02(t *testing.T) {
 			e.Close()
 		}
 	}
+
+	// ---- a block beyond the reach of the read-ahead
+	for k, ib := range []int{iBig, iBig0} {
+		if ib < 0 || !usable(ib) {
+			continue
+		}
+		t0 := time.Now()
+		run.bigEpoch(truths[ib], truths[1], capBytes, concs[k%len(concs)], len(sets)+k)
+		rep.Flag(fmt.Sprintf("seconds_%s", truths[ib].Spec.Name), map[string]interface{}{"build": float64(truths[ib].BuildMs) / 1000, "requests": time.Since(t0).Seconds()})
+	}
+
+	// ---- servers whose epoch set changes while they run
+	if usable(iE1x) {
+		seqs := 1
+		if vh.Thorough() {
+			seqs = 2
+		}
+		for q := 0; q < seqs; q++ {
+			run.changingSet(q, concs[(q+1)%len(concs)], truths[1], truths[iE1x], truths[2], truths[3])
+		}
+	}
+	if usable(iE2v) {
+		run.replacedByOtherContent(concs[1], truths[1], truths[2], truths[iE2v])
+	}
+
 	if err := cases.Write(); err != nil {
 		t.Fatal(err)
 	}
@@ -452,4 +611,421 @@ func vc02S(p *string) string {
 		return "<nil>"
 	}
 	return *p
+}
+
+func vc02U(p *uint64) string {
+	if p == nil {
+		return "<nil>"
+	}
+	return fmt.Sprint(*p)
+}
+
+func vc02Join(d []string) string { return strings.Join(d, "; ") }
+
+func vc02RandomSigs(seed uint64, n int) []solana.Signature {
+	rng := vh.NewRng(seed)
+	out := make([]solana.Signature, n)
+	for k := range out {
+		copy(out[k][:], rng.Bytes(64))
+	}
+	return out
+}
+
+// ---------------------------------------------------------------- the read-ahead of getBlock
+
+// vc02ReadAheadCap reads from the source of the package under test (the test runs in its directory) how many
+// bytes of the CAR file the getBlock handlers read ahead at most: the largest value assigned to a variable or
+// constant whose name speaks of a prefetch / read-ahead size limit. Falls back to 10 MiB (the value of the pinned
+// tree) when nothing of the kind is found; the second result says where the value comes from.
+func vc02ReadAheadCap() (uint64, string) {
+	const fallback = 10 << 20
+	name := regexp.MustCompile(`(?i)^(max)?(prefetch|readahead|read_ahead)\w*(size|bytes|len|length|cap|limit)$|^max\w*(prefetch|readahead)\w*$`)
+	files, _ := filepath.Glob("*.go")
+	var best uint64
+	where := ""
+	for _, f := range files {
+		if strings.HasSuffix(f, "_test.go") {
+			continue
+		}
+		fset := token.NewFileSet()
+		af, err := parser.ParseFile(fset, f, nil, 0)
+		if err != nil {
+			continue
+		}
+		env := map[string]uint64{}
+		var eval func(e ast.Expr) (uint64, bool)
+		eval = func(e ast.Expr) (uint64, bool) {
+			switch x := e.(type) {
+			case *ast.BasicLit:
+				if x.Kind != token.INT {
+					return 0, false
+				}
+				v, err := strconv.ParseUint(strings.ReplaceAll(x.Value, "_", ""), 0, 64)
+				return v, err == nil
+			case *ast.ParenExpr:
+				return eval(x.X)
+			case *ast.Ident:
+				v, ok := env[x.Name]
+				return v, ok
+			case *ast.CallExpr: // a conversion such as uint64(1024 * 1024)
+				if id, ok := x.Fun.(*ast.Ident); ok && len(x.Args) == 1 && (strings.HasPrefix(id.Name, "uint") || strings.HasPrefix(id.Name, "int")) {
+					return eval(x.Args[0])
+				}
+				return 0, false
+			case *ast.BinaryExpr:
+				a, ok1 := eval(x.X)
+				b, ok2 := eval(x.Y)
+				if !ok1 || !ok2 {
+					return 0, false
+				}
+				switch x.Op {
+				case token.MUL:
+					return a * b, true
+				case token.ADD:
+					return a + b, true
+				case token.SUB:
+					return a - b, true
+				case token.SHL:
+					return a << b, true
+				case token.QUO:
+					if b != 0 {
+						return a / b, true
+					}
+				}
+			}
+			return 0, false
+		}
+		note := func(id *ast.Ident, rhs ast.Expr) {
+			v, ok := eval(rhs)
+			if !ok {
+				return
+			}
+			env[id.Name] = v
+			if name.MatchString(id.Name) && v > best {
+				best, where = v, fmt.Sprintf("%s: %s", fset.Position(id.Pos()), id.Name)
+			}
+		}
+		ast.Inspect(af, func(n ast.Node) bool { // source order: a definition is seen before its uses
+			switch x := n.(type) {
+			case *ast.AssignStmt:
+				if len(x.Lhs) == len(x.Rhs) {
+					for i := range x.Lhs {
+						if id, ok := x.Lhs[i].(*ast.Ident); ok {
+							note(id, x.Rhs[i])
+						}
+					}
+				}
+			case *ast.ValueSpec:
+				if len(x.Names) == len(x.Values) {
+					for i := range x.Names {
+						note(x.Names[i], x.Values[i])
+					}
+				}
+			}
+			return true
+		})
+	}
+	if best == 0 {
+		return fallback, "not found in the source: the value of the pinned tree (10 MiB) is assumed"
+	}
+	return best, where
+}
+
+// bigEpoch: an epoch one of whose blocks lies further from its parent block than the read-ahead of getBlock
+// reaches is loaded together with another epoch into a fresh server (cold cache). Every transaction is requested
+// first (before any getBlock has read ahead), then every block and transaction (the first getBlock of a slot
+// reads ahead), then everything again with whatever the first round left in the cache.
+func (r *vc02Run) bigEpoch(big, other *vfxTruth, capBytes uint64, conc, si int) {
+	rep := r.rep
+	var maxSpan uint64
+	beyond := 0
+	for bi := range big.Blocks {
+		span, ok := big.vfxBlockSpan(&big.Blocks[bi])
+		if ok && span > maxSpan {
+			maxSpan = span
+		}
+		if ok && span > capBytes {
+			beyond++
+			rep.Count("blocks that lie further from their parent than the read-ahead reaches")
+		}
+	}
+	var carBytes int64
+	if st, err := os.Stat(big.CarPath); err == nil {
+		carBytes = st.Size()
+	}
+	rep.Flag("epoch_"+big.Spec.Name, map[string]interface{}{"car_bytes": carBytes, "largest_block_span": maxSpan, "read_ahead_cap": capBytes, "blocks_beyond_cap": beyond})
+	if beyond == 0 {
+		rep.Note("epoch %s: no block lies more than %d bytes after its parent (largest span %d): the read-ahead limit is not exercised", big.Spec.Name, capBytes, maxSpan)
+	}
+	use := []*vfxTruth{big, other}
+	multi, eps, err := vfxMulti(use, conc)
+	if err != nil {
+		rep.Note("epoch %s cannot be loaded on this tree (%.300v): its cases are skipped", big.Spec.Name, err)
+		return
+	}
+	defer func() {
+		for _, e := range eps {
+			e.Close()
+		}
+	}()
+	h := newMultiEpochHandler(multi, nil)
+	loaded := []string{big.Spec.Name, other.Spec.Name}
+	o := vc02Opt{si: si, conc: conc, loaded: loaded, allEnc: true, allTx: true}
+	phase := func(p string) {
+		o.tag = fmt.Sprintf("set=%v conc=%d phase=%s", loaded, conc, p)
+		o.extra = map[string]interface{}{"phase": p, "phases": "cold-transactions, cold-blocks, warm (one server, in this order)"}
+	}
+	phase("cold-transactions")
+	for bi := range big.Blocks {
+		b := &big.Blocks[bi]
+		for ti := range b.Txs {
+			r.getTx(multi, h, big, b, bi, ti, o, o.replay(big, map[string]interface{}{"slot": b.Slot}))
+		}
+	}
+	phase("cold-blocks")
+	r.sweep(multi, h, use, o)
+	phase("warm")
+	o.noCoq = true
+	r.sweep(multi, h, use, o)
+}
+
+// ---------------------------------------------------------------- epoch sets that change while the server runs
+
+// vc02Server is a server whose set of loaded epochs is changed through the entry points of MultiEpoch; cur is
+// what a server freshly started with the current set would have loaded.
+type vc02Server struct {
+	multi *MultiEpoch
+	h     func(*fasthttp.RequestCtx)
+	cache *hugecache.Cache
+	cur   map[uint64]*vfxTruth
+	live  map[uint64]*Epoch
+	past  []*vfxTruth // every build that has been loaded at some time
+	steps []string
+}
+
+type vc02Change struct {
+	op string // AddEpoch | ReplaceOrAddEpoch | ReplaceEpoch | RemoveEpoch | RemoveEpochByConfigFilepath
+	tr *vfxTruth
+}
+
+func (c vc02Change) String() string {
+	return fmt.Sprintf("%s(%d: %s)", c.op, c.tr.Spec.Epoch, c.tr.Spec.Name)
+}
+
+// apply makes one change; "" when it was made, otherwise why it could not be made (the sequence ends there).
+func (s *vc02Server) apply(c vc02Change) (why string) {
+	defer func() {
+		if x := recover(); x != nil {
+			why = fmt.Sprintf("%s panicked: %v", c, x)
+		}
+	}()
+	ep := c.tr.Spec.Epoch
+	switch c.op {
+	case "AddEpoch", "ReplaceOrAddEpoch", "ReplaceEpoch":
+		ne, err := vfxLoad(c.tr, s.cache) // the one cache of the server, as in cmd-rpc.go
+		if err != nil {
+			return fmt.Sprintf("%s: the epoch does not load: %v", c, err)
+		}
+		switch c.op {
+		case "AddEpoch":
+			err = s.multi.AddEpoch(ep, ne)
+		case "ReplaceOrAddEpoch":
+			err = s.multi.ReplaceOrAddEpoch(ep, ne) // closes the epoch it replaces
+		case "ReplaceEpoch":
+			err = s.multi.ReplaceEpoch(ep, ne)
+			if old := s.live[ep]; err == nil && old != nil {
+				old.Close() // ReplaceEpoch leaves the replaced epoch to its caller
+			}
+		}
+		if err != nil {
+			ne.Close()
+			return fmt.Sprintf("%s: %v", c, err)
+		}
+		s.cur[ep], s.live[ep] = c.tr, ne
+		s.past = append(s.past, c.tr)
+	case "RemoveEpoch":
+		if err := s.multi.RemoveEpoch(ep); err != nil {
+			return fmt.Sprintf("%s: %v", c, err)
+		}
+		if old := s.live[ep]; old != nil {
+			old.Close() // RemoveEpoch leaves the removed epoch to its caller
+		}
+		delete(s.cur, ep)
+		delete(s.live, ep)
+	case "RemoveEpochByConfigFilepath":
+		if _, err := s.multi.RemoveEpochByConfigFilepath(c.tr.ConfigYml); err != nil {
+			return fmt.Sprintf("%s: %v", c, err)
+		}
+		delete(s.cur, ep)
+		delete(s.live, ep)
+	default:
+		return "unknown change " + c.op
+	}
+	s.steps = append(s.steps, c.String())
+	return ""
+}
+
+func (s *vc02Server) loaded() (use []*vfxTruth, names []string) {
+	var eps []uint64
+	for e := range s.cur {
+		eps = append(eps, e)
+	}
+	sort.Slice(eps, func(i, j int) bool { return eps[i] < eps[j] })
+	for _, e := range eps {
+		use = append(use, s.cur[e])
+		names = append(names, fmt.Sprintf("%d:%s", e, s.cur[e].Spec.Name))
+	}
+	return
+}
+
+// gone: signatures archived by a build that was loaded earlier and by no build that is loaded now.
+func (s *vc02Server) gone(limitPerBuild int) []solana.Signature {
+	have := map[string]bool{}
+	for _, tr := range s.cur {
+		for bi := range tr.Blocks {
+			for _, tx := range tr.Blocks[bi].Txs {
+				have[tx.Sig] = true
+			}
+		}
+	}
+	seen := map[string]bool{}
+	var out []solana.Signature
+	for _, tr := range s.past {
+		var cand []string
+		for bi := range tr.Blocks {
+			for _, tx := range tr.Blocks[bi].Txs {
+				if !have[tx.Sig] && !seen[tx.Sig] {
+					seen[tx.Sig] = true
+					cand = append(cand, tx.Sig)
+				}
+			}
+		}
+		step := 1
+		if limitPerBuild > 0 && len(cand) > limitPerBuild {
+			step = (len(cand) + limitPerBuild - 1) / limitPerBuild
+		}
+		for i := 0; i < len(cand); i += step {
+			out = append(out, solana.MustSignatureFromBase58(cand[i]))
+		}
+	}
+	return out
+}
+
+func (s *vc02Server) close() {
+	for _, e := range s.live {
+		e.Close()
+	}
+}
+
+// check: the answers for ALL loaded epochs are those of the current set; what only earlier builds had is not found.
+func (r *vc02Run) check(s *vc02Server, name string, conc, si int, noCoq bool) {
+	use, names := s.loaded()
+	stepName := "start"
+	if n := len(s.steps); n > 0 {
+		stepName = s.steps[n-1]
+	}
+	o := vc02Opt{
+		tag: fmt.Sprintf("%s conc=%d step=%d %s loaded=%v", name, conc, len(s.steps), stepName, names),
+		si:  si + len(s.steps), conc: conc, loaded: names, noCoq: noCoq,
+		extra: map[string]interface{}{"epoch_set_changes": append([]string(nil), s.steps...),
+			"how": "one server (one shared cache); the changes are made in this order through MultiEpoch, each followed by a sweep over all loaded epochs"},
+	}
+	r.rep.Count("sweeps after an epoch-set change: " + strings.SplitN(stepName, "(", 2)[0])
+	r.sweep(s.multi, s.h, use, o)
+	r.absent(s.multi, s.h, o, "absent", vc02RandomSigs(r.seed+uint64(si)*31+uint64(len(s.steps)), 3))
+	limit := 12
+	if vh.Thorough() {
+		limit = 0
+	}
+	r.absent(s.multi, s.h, o, "gone", s.gone(limit))
+}
+
+func (r *vc02Run) newServer(conc int, start []*vfxTruth) (*vc02Server, error) {
+	multi, eps, cache, err := vfxMultiCache(start, conc)
+	if err != nil {
+		return nil, err
+	}
+	s := &vc02Server{multi: multi, h: newMultiEpochHandler(multi, nil), cache: cache, cur: map[uint64]*vfxTruth{}, live: map[uint64]*Epoch{}}
+	for i, tr := range start {
+		s.cur[tr.Spec.Epoch], s.live[tr.Spec.Epoch] = tr, eps[i]
+		s.past = append(s.past, tr)
+	}
+	return s, nil
+}
+
+// changingSet: a server is started with some epochs; then epochs are replaced (by a build of the same epoch that
+// has grown, and back by the shorter one), removed, added again and added under a new number, through every entry
+// point MultiEpoch has for it. After every change every block and transaction of every loaded epoch is requested
+// and compared with the truth of the CURRENT builds, and the signatures that only earlier builds had must be
+// answered not-found: the answers must not depend on what was loaded before.
+func (r *vc02Run) changingSet(q, conc int, e1, e1x, e2, eN *vfxTruth) {
+	name := fmt.Sprintf("changing-set#%d", q)
+	var start []*vfxTruth
+	var changes []vc02Change
+	if q%2 == 0 {
+		start = []*vfxTruth{e1, e2}
+		changes = []vc02Change{
+			{"ReplaceOrAddEpoch", e1x}, // epoch 1 has grown and was built again
+			{"ReplaceEpoch", e1},       // ... and back to the shorter build
+			{"RemoveEpoch", e2},
+			{"AddEpoch", e2},
+			{"ReplaceOrAddEpoch", eN}, // a new number
+			{"RemoveEpochByConfigFilepath", e1},
+			{"ReplaceOrAddEpoch", e1x},
+		}
+	} else {
+		start = []*vfxTruth{e1x, e2, eN}
+		changes = []vc02Change{
+			{"ReplaceOrAddEpoch", e1},
+			{"RemoveEpochByConfigFilepath", eN},
+			{"ReplaceEpoch", e1x},
+			{"RemoveEpoch", e1x},
+			{"AddEpoch", eN},
+			{"AddEpoch", e1},
+			{"ReplaceOrAddEpoch", e2},
+		}
+	}
+	s, err := r.newServer(conc, start)
+	if err != nil {
+		r.rep.Note("%s: the server cannot be started on this tree (%.300v): skipped", name, err)
+		return
+	}
+	defer s.close()
+	r.check(s, name, conc, 100+10*q, false)
+	for i, c := range changes {
+		if why := s.apply(c); why != "" {
+			r.rep.Note("%s: %.400s - the rest of the sequence is skipped", name, why)
+			return
+		}
+		r.check(s, name, conc, 100+10*q, i > 0)
+	}
+}
+
+// replacedByOtherContent: an epoch is replaced by a build of the same epoch number with OTHER blocks at the same
+// slots. The property asks for the answers of the build that is loaded; VERIF_C02_OTHER_CONTENT = enforce reports
+// differences as failures, observe (the default) records them as notes and counters, off skips the scenario.
+func (r *vc02Run) replacedByOtherContent(conc int, e1, e2, e2v *vfxTruth) {
+	mode := os.Getenv("VERIF_C02_OTHER_CONTENT")
+	if mode == "" {
+		mode = "observe"
+	}
+	if mode == "off" {
+		return
+	}
+	name := "other-content"
+	s, err := r.newServer(conc, []*vfxTruth{e1, e2})
+	if err != nil {
+		r.rep.Note("%s: the server cannot be started on this tree (%.300v): skipped", name, err)
+		return
+	}
+	defer s.close()
+	r.check(s, name, conc, 200, true)
+	if why := s.apply(vc02Change{"ReplaceOrAddEpoch", e2v}); why != "" {
+		r.rep.Note("%s: %.400s - skipped", name, why)
+		return
+	}
+	r.observe, r.observed, r.observeNote = mode != "enforce", 0, "epoch replaced by a build with other blocks at the same slots"
+	r.check(s, name, conc, 200, true)
+	r.rep.Flag("replaced_by_other_content", map[string]interface{}{"mode": mode, "differences_observed": r.observed})
+	r.observe = false
 }
